@@ -180,6 +180,20 @@ func (x *Exec) libCall(st *State, fi int, full string, callee *ssa.Function, arg
 		k(st, fresh("log"))
 		return true
 	}
+	if full == "slices.Contains" && len(args) == 2 && args[0].T.Sort == "Slice" {
+		// slices.Contains(s, v) == exists j. 0 <= j < len(s) && s[j] == v
+		if et := elemTypeOf(args[0].Typ); et != nil {
+			x.libUsed[full] = true
+			r := x.decls.Fresh("lib.Contains", "Bool")
+			j := Term{"?cj", "Int"}
+			el := x.loadElem(st, st.heap, st.epoch, et, sArr(args[0].T), sIdx(sOff(args[0].T), j))
+			vt := x.valueTerm(args[1])
+			body := And(And(Le(IntLit(0), j), Lt(j, sLen(args[0].T))), Eq(el, vt))
+			st.assume(Eq(r, Term{fmt.Sprintf("(exists ((?cj Int)) %s)", body.S), "Bool"}))
+			k(st, Value{T: r, Typ: types.Typ[types.Bool]})
+			return true
+		}
+	}
 	if pure, ok := libPure[full]; ok && pure {
 		x.libUsed[full] = true
 		v := fresh("lib." + callee.Name())
